@@ -583,3 +583,26 @@ def hermetic(line):
     # `[` alone in command position is /usr/bin/[
     line = re.sub(r"(^|[;&|(`]\s*)\[(?=\s|$)", r"\1Q[", line)
     return line
+
+
+class FileProc:
+    """a child whose stdout goes to a scratch file: many such children can run side by side without
+    blocking on a full pipe while the parent reads them one at a time (the code under test prints to
+    stdout too, so a shard's output can be far larger than a pipe buffer)"""
+
+    def __init__(self, argv, **kw):
+        import tempfile
+        os.makedirs(os.path.join(CACHE, "scratch"), exist_ok=True)
+        self.f = tempfile.NamedTemporaryFile(prefix="out-", dir=os.path.join(CACHE, "scratch"))
+        self.p = subprocess.Popen(argv, stdout=self.f, stderr=subprocess.DEVNULL, **kw)
+        self.returncode = None
+
+    def communicate(self, tail=4 << 20):
+        self.p.wait()
+        self.returncode = self.p.returncode
+        self.f.seek(0, 2)
+        size = self.f.tell()
+        self.f.seek(max(0, size - tail))
+        data = self.f.read()
+        self.f.close()
+        return data, b""
